@@ -195,7 +195,7 @@ pub fn exec(line: &str) -> String {
             }
         }
         ["sc", rest] => {
-            let mut buf = [0u8; 256];
+            let mut buf = [0xA5u8; 256]; // a dirty transmit buffer (real PHYs reuse theirs)
             let r = TelegramTx::new(&mut buf).send_short_confirmation();
             let mut bytes = buf[..r.bytes_sent()].to_vec();
             let s = format!("ok {}", hex(&bytes));
@@ -203,7 +203,7 @@ pub fn exec(line: &str) -> String {
             format!("{} | {}", s, obs_decode(&bytes))
         }
         ["tok", da, sa, rest] => {
-            let mut buf = [0u8; 256];
+            let mut buf = [0xA5u8; 256]; // a dirty transmit buffer (real PHYs reuse theirs)
             let r = TelegramTx::new(&mut buf).send_token_telegram(da.parse().unwrap(), sa.parse().unwrap());
             let mut bytes = buf[..r.bytes_sent()].to_vec();
             let s = format!("ok {}", hex(&bytes));
